@@ -11,8 +11,12 @@ CLAIMED = {
          "decides the structural clauses C02-UNDO/HIST/BOARD3/EDITPAIR (undo writes what make writes, History save/restore, three board views written together, mirrored board edits), not the forward rules semantics"),
  "C03": ("mutation/toggle pairing by dominance + sibling agreement of hash and toggles",
          "decides the structural clauses C03-PAIR/SCRATCH/INIT (every hashed-state mutation paired with its key toggle, from-scratch hash and toggles read the same component families, init-only writers), not distinctness of the generated words"),
+ "C04": ("panic-site cone enumeration over MIR asserts/calls, interval dischargers over constants and dominating guards, named class rules, taint of type extremes into unchecked score arithmetic",
+         "decides absence of undischarged crash sites in the cone of search::search (C04-CONE), classification of every unchecked score-arithmetic call site incl. clamp-then-arith (C04-EVALOP) and the return structure (C04-RET); does not decide termination or legality of an unverified hash move"),
  "C05": ("typestate abstract interpretation of UciCommand arms + lock-order graph",
          "decides the clauses C05-TS/SET/LOCK/NOBLOCK (no reachable latch wait without a pending set, set-after-bestmove, acyclic lock order, non-blocking arms) assuming the search terminates; not that each go is answered at its limit"),
+ "C06": ("panic-site cone of the FEN reader with alphabet/match exhaustiveness checks, width-guard dominance, inverse letter tables extracted by path-sensitive symbolic walk",
+         "decides the reader's panic-freedom on arbitrary text and rank-width rejection (C06-CONE/WIDTH) and reader/writer letter-table agreement (C06-TABLES); not the round-trip equalities as such"),
  "C08": ("guard dominance w.r.t. the PV-node flag, PV push discipline, mirrored mate-distance conversions, induction-variable provenance",
          "decides the mechanism clauses C08-PVGUARD/PVPUSH/MATEDIST/DEPTH/MATE (no hash cut-off or forward pruning in PV nodes, guarded PV extension, mate-distance pairing, depth = iteration variable, mate only with zero legal moves), not legality or length of actual lines"),
  "C09": ("Err-edge reachability at every recursive call site, poll dominance, type-level immutability",
